@@ -4,7 +4,7 @@
    although it is printed qubit by qubit).  Added to the judgement of Lang/LoopProofs.v as one more kind of top-level
    statement. *)
 From Coq Require Import ZArith List Bool String Lia.
-From Verif Require Import Aexp BGate PyVal CastPrim Ast State GatesGen GateLib Unroll ResolveProofs Depth DepthModel ExprProofs FixProofs LoopProofs.
+From Verif Require Import Aexp BGate PyVal CastPrim Ast State GatesGen GateLib Unroll ResolveProofs Depth DepthModel ExprProofs FixProofs LoopProofs ParamProofs.
 Import ListNotations.
 Open Scope Z_scope.
 
@@ -37,8 +37,16 @@ Fixpoint lit_ints (vals : list expr) : option (list Z) :=
   end.
 Definition in_size (n i : Z) : bool := (0 <=? i) && (i <? n).
 
+(* an index that is a closed expression (r[1 + 1], r[2 * 3 - 4], a boolean counts as 0 / 1): folded by the pure evaluator *)
+Definition idx_of (v : pyval) : option Z := match num_of_bool v with VInt i => Some i | _ => None end.
+
 Definition opnd_bits (m : list (string * Z)) (q : qarg) : option (list bitref) :=
   match q with
+  | QIdx r [IdxList [IExpr e]] =>
+      match sget r m, ceval e with
+      | Some n, Some v => match idx_of v with Some i => if in_size n i then Some [(r, i)] else None | None => None end
+      | _, _ => None
+      end
   | QIdx r [IdxSet vals] =>
       match sget r m, lit_ints vals with
       | Some n, Some zs => if forallb (in_size n) zs then Some (map (fun i => (r, i)) zs) else None
@@ -94,6 +102,9 @@ Proof.
       destruct (forallb (in_size n) zs) eqn:Ef; [|discriminate]. intros H. injection H as <-.
       apply forallb_forall. intros x Hx. apply in_map_iff in Hx as (i & <- & Hi). unfold in_reg. cbn [fst snd]. rewrite Es.
       eapply forallb_forall in Ef; eauto. }
+    { destruct (sget r m) as [n|] eqn:Es; [|discriminate]. destruct (ceval e) as [v|]; [|discriminate].
+      destruct (idx_of v) as [i|]; [|discriminate]. destruct (in_size n i) eqn:Hi; [|discriminate]. intros H. injection H as <-.
+      cbn [forallb]. unfold in_reg. cbn [fst snd]. rewrite Es. unfold in_size in Hi. now rewrite Hi. }
     destruct (sget r m) as [n|] eqn:Es; [|discriminate].
     destruct (lit_end ea 0) as [a|]; [|discriminate]. destruct (lit_end eb n) as [b|]; [|discriminate]. destruct (lit_end ec 1) as [st|]; [|discriminate].
     destruct (in_size n a && in_size n (b - 1)) eqn:C; [|discriminate]. destruct (py_range a b st) as [l|] eqn:Er; [|discriminate].
@@ -103,6 +114,9 @@ Proof.
     apply forallb_forall. intros x Hx. apply in_map_iff in Hx as (i & <- & Hi). specialize (Hf i Hi).
     unfold in_reg. cbn [fst snd]. rewrite Es. apply andb_true_iff. split; [apply Z.leb_le|apply Z.ltb_lt]; lia.
 Qed.
+
+Lemma idx_of_index v i s : idx_of v = Some i -> as_index (num_of_bool v) s = Ok (i, s).
+Proof. unfold idx_of. destruct (num_of_bool v); try discriminate. intros H. injection H as <-. reflexivity. Qed.
 
 Lemma discrete_lits vals : forall zs s, lit_ints vals = Some zs -> discrete_set_values vals s = Ok (zs, s).
 Proof.
@@ -162,6 +176,20 @@ Proof.
       rewrite (bind_eq _ _ s zs s); [reflexivity|].
       rewrite (bind_eq _ _ s zs s (discrete_lits vals zs s Ez)).
       rewrite (bind_eq _ _ s tt s (validate_all n zs s Ef)). reflexivity. }
+    { destruct (sget r (if is_q then e_q env else e_c env)) as [n|] eqn:Hs; [|discriminate].
+      destruct (ceval e) as [v|] eqn:Ev; [|discriminate]. destruct (idx_of v) as [i|] eqn:Ei; [|discriminate].
+      destruct (in_size n i) eqn:Hi; [|discriminate]. injection H as <-.
+      unfold resolve_one, qarg_name. rewrite (bind_eq _ _ s s s eq_refl).
+      assert (Hm : sget r (if is_q then qreg_sizes s else creg_sizes s) = Some n).
+      { destruct is_q; [rewrite (R_q _ _ R)|rewrite (R_c _ _ R)]; exact Hs. }
+      rewrite Hm. rewrite (bind_eq _ _ s (false, if is_q then qreg_sizes s else creg_sizes s) s eq_refl).
+      assert (Hl : name_in_levels s r = true) by (destruct is_q; [eapply R_lvq|eapply R_lvc]; eauto).
+      rewrite Hl. cbn [guard]. rewrite (bind_eq _ _ s tt s eq_refl). rewrite Hm.
+      rewrite (bind_eq _ _ s [i] s); [reflexivity|].
+      rewrite (bind_eq _ _ s v s).
+      2:{ unfold eval0. rewrite (bind_eq _ _ s (v, []) s (ceval_eval call_rec e v s Ev)). reflexivity. }
+      rewrite (bind_eq _ _ s i s (idx_of_index v i s Ei)).
+      unfold validate_index. unfold in_size in Hi. rewrite Hi. rewrite (bind_eq _ _ s tt s eq_refl). reflexivity. }
     destruct (sget r (if is_q then e_q env else e_c env)) as [n|] eqn:Hs; [|discriminate].
     destruct (lit_end ea 0) as [a|] eqn:Ea; [|discriminate]. destruct (lit_end eb n) as [b|] eqn:Eb; [|discriminate].
     destruct (lit_end ec 1) as [st|] eqn:Ec; [|discriminate].
@@ -330,6 +358,7 @@ Proof.
       pose proof (lit_bit_name _ _ Eb) as Hn. cbn [qarg_name] in Hn. rewrite Hn. unfold in_reg in Ei.
       destruct (sget (fst b) m) eqn:E; [|discriminate]. eapply smemk_of; eauto. }
     destruct idx as [|[vals|[|[e|ea eb ec] [|it2 items']]] [|i1 idx']]; try exact Hlit.
+    { destruct (sget r m) eqn:E; [|discriminate]. intros _. eapply smemk_of; eauto. }
     { destruct (sget r m) eqn:E; [|discriminate]. intros _. eapply smemk_of; eauto. }
     destruct (sget r m) eqn:E; [|discriminate]. intros _. eapply smemk_of; eauto.
 Qed.
